@@ -39,6 +39,8 @@ type FuncContract struct {
 	Ensures     []*Clause
 	Modifies    []*Clause
 	GhostUpdates []*Clause
+	GhostMod     []string
+	UseBody      map[string]bool
 	HasModifies bool
 	Pure        bool
 	Inline      bool
@@ -135,7 +137,7 @@ func (cs *ContractSet) forIface(name string, m *types.Func) *FuncContract {
 	return cs.ifaces[name]
 }
 
-var kwRe = regexp.MustCompile(`^(requires|ensures|modifies|pure|inline|trusted|maypanic|loop|results|params|recv|ghost|lemma)\b`)
+var kwRe = regexp.MustCompile(`^(requires|ensures|modifies|pure|inline|trusted|maypanic|loop|results|params|recv|ghostmod|ghost|lemma|usebody)\b`)
 
 // load reads every zz_verif_contracts*.go of the loaded packages.
 func (cs *ContractSet) load(pkgs []*packages.Package) error {
@@ -285,6 +287,17 @@ func (cs *ContractSet) loadFile(path string, p *packages.Package) error {
 				}
 				c.Text = strings.TrimSpace(gp[0])
 				cur.GhostUpdates = append(cur.GhostUpdates, c)
+			case "ghostmod":
+				for _, g := range strings.Split(rest, ",") {
+					cur.GhostMod = append(cur.GhostMod, strings.TrimSpace(g))
+				}
+			case "usebody":
+				if cur.UseBody == nil {
+					cur.UseBody = map[string]bool{}
+				}
+				for _, g := range strings.Split(rest, ",") {
+					cur.UseBody[strings.TrimSpace(g)] = true
+				}
 			case "pure":
 				cur.Pure = true
 			case "inline":
